@@ -46,6 +46,7 @@ func (reg *Reg) ManifestDelete(ctx context.Context, r ref.Ref, opts ...scheme.Ma
 		}
 		mc.Manifest = m
 	}
+	var rSubject ref.Ref
 	if mc.Manifest != nil {
 		if mr, ok := mc.Manifest.(manifest.Subjecter); ok {
 			sDesc, err := mr.GetSubject()
@@ -55,6 +56,7 @@ func (reg *Reg) ManifestDelete(ctx context.Context, r ref.Ref, opts ...scheme.Ma
 				if err != nil && !errors.Is(err, errs.ErrNotFound) {
 					return err
 				}
+				rSubject = r.SetDigest(sDesc.Digest.String())
 			}
 		}
 	}
@@ -80,6 +82,10 @@ func (reg *Reg) ManifestDelete(ctx context.Context, r ref.Ref, opts ...scheme.Ma
 	}
 	// a concurrent get or put of the same digest may have stored the manifest again since the cache was cleared above
 	reg.cacheMan.Delete(rCache)
+	// likewise a referrer listing of the subject may have been cached while the delete was in progress
+	if rSubject.IsSet() {
+		reg.cacheRL.Delete(rSubject)
+	}
 
 	return nil
 }
